@@ -48,6 +48,10 @@ theorem no_method_returns_a_pointer : RotoV.Gen.C16.methodShapes.lookup Method.g
 theorem concat_trace_as_modelled : RotoV.Gen.C16.concatTrace = concatAtomicAsModelled := by decide
 theorem eq_trace_as_modelled :
     RotoV.Gen.C16.eqTrace = eqAsModelled ∧ RotoV.Gen.C16.eqPtrEqFirst = true := by decide
+/-- the typed `List<T>::eq` (the Rust-side `==`) has the lock discipline of
+    `ErasedList::eq`, which is what `Op.eq` models for both -/
+theorem typed_eq_as_modelled :
+    RotoV.Gen.C16.typedEqPtrEqFirst = true ∧ RotoV.Gen.C16.typedEqOrdered = true := by decide
 
 /-! ### T1 — linearizability and pointer safety, for all threads / programs / schedules -/
 
